@@ -192,7 +192,8 @@ class Uniform(Prior):
 
         if guess is None:
             if np.isfinite(lower_bound) and np.isfinite(upper_bound):
-                self.guess = (upper_bound + lower_bound) / 2
+                # (halve first: the sum of two large bounds overflows)
+                self.guess = upper_bound / 2 + lower_bound / 2
             elif np.isfinite(lower_bound):
                 self.guess = lower_bound
             elif np.isfinite(upper_bound):
